@@ -2175,10 +2175,16 @@ class SQLCompiler(Compiled):
 
             if parameter in self.literal_execute_params:
                 if escaped_name not in replacement_expressions:
+                    # the given parameters are keyed by unescaped names
+                    # when delivered by the execution context
+                    # (construct_params(escape_names=False)) and by escaped
+                    # names via construct_expanded_state()
                     replacement_expressions[escaped_name] = (
                         self.render_literal_bindparam(
                             parameter,
-                            render_literal_value=parameters.pop(escaped_name),
+                            render_literal_value=parameters.pop(
+                                name if name in parameters else escaped_name
+                            ),
                         )
                     )
                 continue
